@@ -22,6 +22,25 @@ fn err_of(code: u8) -> Error {
     }
 }
 
+/// the status a failing CTAP1 handler returns: unit variants and data-carrying ones, also outside their documented ranges
+pub fn status_of(k: u8) -> ctap1::Error {
+    use ctap1::Error as S;
+    match k % 12 {
+        0 => S::ConditionsOfUseNotSatisfied,
+        1 => S::IncorrectDataParameter,
+        2 => S::WrongLength,
+        3 => S::WarningTriggering(k),
+        4 => S::ErrorTriggering(k),
+        5 => S::RemainingRetries(k % 16),
+        6 => S::RemainingRetries(16 + k / 2),
+        7 => S::MoreAvailable(k),
+        8 => S::InstructionNotSupportedOrInvalid,
+        9 => S::ClassNotSupported,
+        10 => S::UnspecifiedCheckingError,
+        _ => S::WarningTriggering(0),
+    }
+}
+
 impl Mock {
     pub fn new(fail: Option<(String, u8)>) -> Self {
         Mock { log: vec![], seen: vec![], fail }
@@ -104,14 +123,14 @@ impl ctap1::Authenticator for Mock {
     fn register(&mut self, request: &ctap1::register::Request<'_>) -> ctap1::Result<ctap1::register::Response> {
         self.log.push("register".into());
         self.seen.push(format!("{}{}", crate::val::hex(request.challenge), crate::val::hex(request.app_id)));
-        if let Some((m, _)) = &self.fail { if m == "register" { return Err(ctap1::Error::ConditionsOfUseNotSatisfied); } }
+        if let Some((m, k)) = &self.fail { if m == "register" { return Err(status_of(*k)); } }
         Ok(ctap1::register::Response { header_byte: 5, public_key: Default::default(), key_handle: Default::default(),
             attestation_certificate: Default::default(), signature: Default::default() })
     }
     fn authenticate(&mut self, request: &ctap1::authenticate::Request<'_>) -> ctap1::Result<ctap1::authenticate::Response> {
         self.log.push("authenticate".into());
         self.seen.push(format!("{}{}{}", crate::val::hex(request.challenge), crate::val::hex(request.app_id), crate::val::hex(request.key_handle)));
-        if let Some((m, _)) = &self.fail { if m == "authenticate" { return Err(ctap1::Error::IncorrectDataParameter); } }
+        if let Some((m, k)) = &self.fail { if m == "authenticate" { return Err(status_of(*k)); } }
         Ok(ctap1::authenticate::Response { user_presence: 1, count: 7, signature: Default::default() })
     }
 }
